@@ -58,6 +58,7 @@ type state struct {
 	grant     chan struct{}
 	log       []string
 	names     map[int]string // fd number -> current symbolic name
+	byPtr     map[string]string // connection object -> symbolic name (bound at register0)
 	conns     map[string]*connInfo
 	order     []string
 	pending   []net.Conn // connected peers not yet accepted
@@ -103,6 +104,20 @@ func record(rec string) {
 			st.conns[cid] = ci
 			st.order = append(st.order, cid)
 		}
+	}
+	// the identity of the connection object (last value of an entry) decides the name: a stale handle keeps the
+	// name of the connection it belonged to even when its descriptor number has been handed out again
+	if len(f) >= 3 && f[0] == "enter" && strings.HasPrefix(f[len(f)-1], "p=") {
+		ptr := f[len(f)-1]
+		f = f[:len(f)-1]
+		if n, err := strconv.Atoi(f[2]); err == nil {
+			if f[1] == "register0" {
+				st.byPtr[ptr] = nameOf(n)
+			} else if name, ok := st.byPtr[ptr]; ok && name != nameOf(n) {
+				f[2] = "fd=" + name
+			}
+		}
+		rec = strings.Join(f, " ")
 	}
 	if len(f) >= 2 && f[0] == "sys" && f[1] == "dup" {
 		if m := regexp.MustCompile(`nfd=(\d+) err=nil`).FindStringSubmatch(rec); m != nil {
@@ -356,13 +371,16 @@ func runHop(op, arg string, c gnet.Conn, ci *connInfo) string {
 		return fmt.Sprintf("n=%d", c.OutboundBuffered())
 	case "write":
 		p := util.UnHex(arg)
-		open := ci != nil && !ci.fdClosed && ci.closedCB == 0
+		open := ci != nil && !ci.fdClosed
 		mark := 0
 		if open { // the bytes count as accepted while the call runs (it may hand them to the kernel at once)
 			mark = len(ci.accepted)
 			ci.accepted = append(ci.accepted, p...)
 		}
 		n, err := c.Write(p)
+		if ci == nil && err == nil && c.LocalAddr() != nil && strings.HasPrefix(c.LocalAddr().Network(), "udp") {
+			udpExpect = append(udpExpect, append([]byte{}, p...))
+		}
 		if open && err != nil {
 			ci.accepted = ci.accepted[:mark+n]
 			healthy(ci, "Write", err)
@@ -379,7 +397,7 @@ func runHop(op, arg string, c gnet.Conn, ci *connInfo) string {
 			bs = append(bs, b)
 			all = append(all, b...)
 		}
-		open := ci != nil && !ci.fdClosed && ci.closedCB == 0
+		open := ci != nil && !ci.fdClosed
 		mark := 0
 		if open {
 			mark = len(ci.accepted)
@@ -569,6 +587,30 @@ type dgram struct {
 var udpSent []dgram
 var udpSeen int
 
+// replies: every successful Write inside the callback of a UDP listener must arrive at the sender as exactly one datagram
+var udpExpect [][]byte
+var udpGot int
+
+func udpDrain(st *state) string {
+	var got []string
+	for {
+		buf := make([]byte, 70000)
+		_ = st.udp.udpPeer.SetReadDeadline(time.Now().Add(30 * time.Millisecond))
+		n, err := st.udp.udpPeer.Read(buf)
+		if err != nil {
+			break
+		}
+		got = append(got, util.Hex(buf[:n]))
+		if udpGot >= len(udpExpect) {
+			fail(fmt.Sprintf("C08: the sender received a datagram of %d bytes that no Write of the handler sent", n))
+		} else if !bytes.Equal(udpExpect[udpGot], buf[:n]) {
+			fail(fmt.Sprintf("C08: reply %d arrived as %s, the handler wrote %s", udpGot, util.Hex(buf[:n]), util.Hex(udpExpect[udpGot])))
+		}
+		udpGot++
+	}
+	return fmt.Sprintf("ok @@ n=%d data=%s", len(got), strings.Join(got, ","))
+}
+
 func oracleUDP(c gnet.Conn) {
 	if udpSeen >= len(udpSent) {
 		fail("C08: OnTraffic without a datagram")
@@ -660,9 +702,10 @@ func drain() string {
 func newLoop(ws []string) string {
 	teardown()
 	// newloop <lt|et> <chunk> <rbc> <wbc> <unix|tcp|udp>
-	st = &state{names: map[int]string{}, conns: map[string]*connInfo{}, progs: map[string]string{}, directive: map[string][]vsys.Directive{}, proto: ws[5]}
+	st = &state{names: map[int]string{}, byPtr: map[string]string{}, conns: map[string]*connInfo{}, progs: map[string]string{}, directive: map[string][]vsys.Directive{}, proto: ws[5]}
 	asyncQ = map[string][][]byte{}
 	udpSent, udpSeen = nil, 0
+	udpExpect, udpGot = nil, 0
 	chunk, _ := strconv.Atoi(ws[2])
 	rbc, _ := strconv.Atoi(ws[3])
 	wbc, _ := strconv.Atoi(ws[4])
@@ -847,10 +890,7 @@ func step(ws []string) string {
 		if st.udp == nil {
 			return "ok"
 		}
-		buf := make([]byte, 70000)
-		_ = st.udp.udpPeer.SetReadDeadline(time.Now().Add(30 * time.Millisecond))
-		n, _ := st.udp.udpPeer.Read(buf)
-		return fmt.Sprintf("ok @@ n=%d data=%s", n, util.Hex(buf[:n]))
+		return udpDrain(st)
 	case "async": // async <cid> write <hex> | wake | close   (from another goroutine; the loop is parked)
 		ci := st.conns[ws[1]]
 		if ci == nil {
@@ -879,6 +919,12 @@ func step(ws []string) string {
 			ci := st.conns[cid]
 			if ci.fatal != "" && ci.opened == 1 && (ci.closedCB != 1 || ci.closeErr != "nonnil" || !ci.fdClosed) {
 				fail(fmt.Sprintf("C18: %s met %s but is not closed with a non-nil OnClose error (OnClose calls %d, err %s, descriptor closed %v)", cid, ci.fatal, ci.closedCB, ci.closeErr, ci.fdClosed))
+			}
+		}
+		if st.udp != nil {
+			udpDrain(st)
+			if udpGot < len(udpExpect) {
+				fail(fmt.Sprintf("C08: the handler's Write calls sent %d datagrams back, the sender received %d", len(udpExpect), udpGot))
 			}
 		}
 		return "ok @@ err=" + errName(st.loop.Shutdown())
